@@ -209,10 +209,16 @@ func scenarioC09x(c *hlib.RunCtx) *hlib.Violation {
 		}
 		if ph > 0 && wkKind <= 1 && t.Bool(1, 4) {
 			// between two phases the user changes the week-end day, or the file goes away
-			if t.Bool(1, 2) {
+			switch t.Draw(3) {
+			case 0:
 				os.WriteFile(wkPath, []byte(fmt.Sprintf("%d\n", t.Draw(7))), 0666)
-			} else {
+			case 1:
 				os.Remove(wkPath)
+			case 2:
+				// ... or is emptied (a failed save): the next rotation cannot tell the
+				// week's end; whatever it does, nothing more may land in the expired file
+				os.WriteFile(wkPath, []byte([]string{"", "\n", " \n"}[t.Draw(3)]), 0666)
+				s.Probe("weekends-emptied")
 			}
 			wkChanged = true
 			s.Probe("weekends-changed")
